@@ -46,6 +46,8 @@ struct Case {
     big: usize,
     /// >= 0: the peer stops reading - the stream accepts this many request bytes in total, then writes stay pending
     wblock: i64,
+    /// capacity of the submit channel (0 = what `Connection::new` uses)
+    capacity: usize,
 }
 
 const CUT_KINDS: [&str; 5] = ["eof", "read-error", "write-error", "silence", "silence-after-keepalive"];
@@ -66,7 +68,7 @@ fn breaks_connection(k: &str) -> bool {
 
 impl Case {
     fn to_json(&self, choices: &[usize]) -> Value {
-        json!({"leg":"router-faults","n":self.n,"answer":self.answer,"kind":self.kind,"cut":self.cut,"late":self.late,"coalescing":self.coalescing,"read_chunk":self.read_chunk,"keepalive_everywhere":self.keepalive_everywhere,"prefill":self.prefill,"big":self.big,"wblock":self.wblock,"choices":choices})
+        json!({"leg":"router-faults","n":self.n,"answer":self.answer,"kind":self.kind,"cut":self.cut,"late":self.late,"coalescing":self.coalescing,"read_chunk":self.read_chunk,"keepalive_everywhere":self.keepalive_everywhere,"prefill":self.prefill,"big":self.big,"wblock":self.wblock,"capacity":self.capacity,"choices":choices})
     }
     fn from_json(v: &Value) -> Case {
         Case {
@@ -81,6 +83,7 @@ impl Case {
             prefill: v["prefill"].as_u64().unwrap_or(0) as usize,
             big: v["big"].as_u64().unwrap_or(0) as usize,
             wblock: v["wblock"].as_i64().unwrap_or(-1),
+            capacity: v["capacity"].as_u64().unwrap_or(0) as usize,
         }
     }
 }
@@ -105,7 +108,7 @@ fn run_case(case: &Case, ch: &mut Chooser) -> (Result<(), String>, Run) {
             write_coalescing_delay: coalescing_of(&case.coalescing),
             keepalive_interval: if with_keepalive { Some(Duration::from_millis(KEEPALIVE_INTERVAL_MS)) } else { None },
             keepalive_timeout: if with_keepalive { Some(Duration::from_millis(KEEPALIVE_TIMEOUT_MS)) } else { None },
-            submit_channel_capacity: 0,
+            submit_channel_capacity: case.capacity,
             prefill: case.prefill,
         };
         let mut w = World::new(cfg, case.read_chunk);
@@ -121,9 +124,10 @@ fn run_case(case: &Case, ch: &mut Chooser) -> (Result<(), String>, Run) {
 
 async fn drive(case: &Case, ch: &mut Chooser, w: &mut World, run: &mut Run) -> Result<(), String> {
     for i in 0..case.n {
-        w.start_caller(if i == 0 && case.big > 0 { caller_spec_big(0, case.big) } else { caller_spec(i) });
+        // (spec 3 is the late caller's; a crowd of callers uses specs 13..)
+        w.start_caller(if i == 0 && case.big > 0 { caller_spec_big(0, case.big) } else if i < 3 { caller_spec(i) } else { caller_spec(10 + i) });
     }
-    w.quiesce(ch, 400).await?;
+    w.quiesce(ch, 400 + 20 * case.n).await?;
     w.ingest()?;
     if case.coalescing == "1ms" {
         // the writer sleeps 1ms before it flushes: let virtual time pass until every request is on the wire
@@ -133,7 +137,7 @@ async fn drive(case: &Case, ch: &mut Chooser, w: &mut World, run: &mut Run) -> R
             }
             vasync::advance(MS).await;
             w.log("time +1ms (write coalescing sleep)".into());
-            w.quiesce(ch, 400).await?;
+            w.quiesce(ch, 400 + 20 * w.callers.len()).await?;
             w.ingest()?;
         }
     }
@@ -197,12 +201,12 @@ async fn drive(case: &Case, ch: &mut Chooser, w: &mut World, run: &mut Run) -> R
         if !bytes.is_empty() {
             w.deliver(&bytes, "answers to the chosen subset");
         }
-        w.quiesce(ch, 400).await?;
+        w.quiesce(ch, 400 + 20 * w.callers.len()).await?;
         // the orphans grow old (threshold 1 s); the orphaner's next 1 s tick must give the connection up
         for _ in 0..3 {
             vasync::advance(Duration::from_millis(700)).await;
             w.log("time +700ms".into());
-            w.quiesce(ch, 400).await?;
+            w.quiesce(ch, 400 + 20 * w.callers.len()).await?;
         }
     } else if is_cut_kind(&case.kind) {
         let all: Vec<u8> = frames.iter().flat_map(|(_, b)| b.iter().copied()).collect();
@@ -233,7 +237,7 @@ async fn drive(case: &Case, ch: &mut Chooser, w: &mut World, run: &mut Run) -> R
             // default: the router sees the bytes first and the fault afterwards; deviation: both at once
             let at_once = ch.choose("fault-timing", 2) == 1;
             if !at_once {
-                w.quiesce(ch, 400).await?;
+                w.quiesce(ch, 400 + 20 * w.callers.len()).await?;
             }
             match case.kind.as_str() {
                 "eof" => w.ctl.set_eof(),
@@ -284,7 +288,7 @@ async fn drive(case: &Case, ch: &mut Chooser, w: &mut World, run: &mut Run) -> R
     if case.late {
         w.start_caller(caller_spec(3));
     }
-    w.quiesce(ch, 600).await?;
+    w.quiesce(ch, 600 + 20 * w.callers.len()).await?;
     w.ingest()?;
     if case.coalescing == "1ms" && !is_silence(&case.kind) {
         // a late request's write (and with it a write error) waits for the coalescing sleep: that is a
@@ -292,7 +296,7 @@ async fn drive(case: &Case, ch: &mut Chooser, w: &mut World, run: &mut Run) -> R
         for _ in 0..3 {
             vasync::advance(MS).await;
             w.log("time +1ms (write coalescing sleep)".into());
-            w.quiesce(ch, 400).await?;
+            w.quiesce(ch, 400 + 20 * w.callers.len()).await?;
             w.ingest()?;
         }
     }
@@ -312,7 +316,7 @@ async fn drive(case: &Case, ch: &mut Chooser, w: &mut World, run: &mut Run) -> R
             }
             w.mark_answered(0);
             w.deliver(&f, "answer to a still held request");
-            w.quiesce(ch, 400).await?;
+            w.quiesce(ch, 400 + 20 * w.callers.len()).await?;
             w.ingest()?;
             guard += 1;
             if guard > 8 {
@@ -328,7 +332,7 @@ async fn drive(case: &Case, ch: &mut Chooser, w: &mut World, run: &mut Run) -> R
             vasync::advance(Duration::from_millis(QUANTUM_MS)).await;
             elapsed += QUANTUM_MS;
             w.log(format!("time +{QUANTUM_MS}ms (t={elapsed}ms)"));
-            w.quiesce(ch, 400).await?;
+            w.quiesce(ch, 400 + 20 * w.callers.len()).await?;
             w.ingest()?;
             if answer_keepalives > 0 {
                 if let Some(pos) = w.held.iter().position(|h| h.caller.is_none()) {
@@ -340,7 +344,7 @@ async fn drive(case: &Case, ch: &mut Chooser, w: &mut World, run: &mut Run) -> R
                         // a response frame is half-written: the keep-alive answer cannot be put on the wire before its rest
                     } else {
                         w.deliver(&f, "answer to the first keep-alive");
-                        w.quiesce(ch, 400).await?;
+                        w.quiesce(ch, 400 + 20 * w.callers.len()).await?;
                     }
                 }
             }
@@ -385,15 +389,15 @@ async fn drive(case: &Case, ch: &mut Chooser, w: &mut World, run: &mut Run) -> R
         let before = pending.len();
         for _ in 0..30 {
             vasync::advance(Duration::from_millis(QUANTUM_MS)).await;
-            w.quiesce_default(400).await?;
+            w.quiesce_default(400 + 20 * w.callers.len()).await?;
         }
         let still: Vec<usize> = pending.iter().copied().filter(|&i| w.callers[i].out.borrow().is_none()).collect();
         return Err(format!(
-            "hang|after the fault and polling every task to quiescence{} {} caller(s) are still pending: {:?} (peer had completely answered: {:?}); after 3 more seconds of virtual time {} of them are still pending; error receiver: {}",
+            "hang|after the fault and polling every task to quiescence{} {} caller(s) are still pending (first: {:?}; peer had completely answered those: {:?}); after 3 more seconds of virtual time {} of them are still pending; error receiver: {}",
             if is_silence(&case.kind) { format!(" and {}ms of virtual time (interval {KEEPALIVE_INTERVAL_MS} + timeout {KEEPALIVE_TIMEOUT_MS})", silence_horizon_ms(&case.kind)) } else { String::new() },
             before,
-            pending,
-            pending.iter().map(|&i| w.callers[i].answered_fully).collect::<Vec<_>>(),
+            pending.iter().take(8).collect::<Vec<_>>(),
+            pending.iter().take(8).map(|&i| w.callers[i].answered_fully).collect::<Vec<_>>(),
             still.len(),
             err_class
         ));
@@ -471,6 +475,14 @@ fn answer_sequences(n: usize, thorough: bool) -> Vec<Vec<usize>> {
     all
 }
 
+/// capacity of the submit channel as the seam (mirroring `Connection::new`) creates it
+fn real_submit_capacity() -> usize {
+    vasync::run(|| async {
+        let w = World::new(hook::RouterCfg::default(), 0);
+        w.handle.submit_capacity()
+    })
+}
+
 fn frame_len(c: usize) -> usize {
     9 + caller_spec(c).response_body.len()
 }
@@ -488,10 +500,10 @@ fn cases(thorough: bool) -> Vec<Case> {
                         for late in lates {
                             let chunks: Vec<usize> = vec![0, 1];
                             for read_chunk in chunks {
-                                v.push(Case { n, answer: answer.clone(), kind: kind.to_string(), cut, late, coalescing: co.to_string(), read_chunk, keepalive_everywhere: false, prefill: 0, big: 0, wblock: -1 });
+                                v.push(Case { n, answer: answer.clone(), kind: kind.to_string(), cut, late, coalescing: co.to_string(), read_chunk, keepalive_everywhere: false, prefill: 0, big: 0, wblock: -1, capacity: 0 });
                                 if thorough && !is_silence(kind) && read_chunk == 0 {
                                     // the same fault with the keep-aliver armed (its select! and timers are then part of the joined router)
-                                    v.push(Case { n, answer: answer.clone(), kind: kind.to_string(), cut, late, coalescing: co.to_string(), read_chunk, keepalive_everywhere: true, prefill: 0, big: 0, wblock: -1 });
+                                    v.push(Case { n, answer: answer.clone(), kind: kind.to_string(), cut, late, coalescing: co.to_string(), read_chunk, keepalive_everywhere: true, prefill: 0, big: 0, wblock: -1, capacity: 0 });
                                 }
                             }
                         }
@@ -499,13 +511,13 @@ fn cases(thorough: bool) -> Vec<Case> {
                 }
                 if co == "yield" {
                     for late in [false, true] {
-                        v.push(Case { n, answer: answer.clone(), kind: ORPHAN_OVERFLOW.to_string(), cut: 0, late, coalescing: co.to_string(), read_chunk: 0, keepalive_everywhere: false, prefill: 0, big: 0, wblock: -1 });
+                        v.push(Case { n, answer: answer.clone(), kind: ORPHAN_OVERFLOW.to_string(), cut: 0, late, coalescing: co.to_string(), read_chunk: 0, keepalive_everywhere: false, prefill: 0, big: 0, wblock: -1, capacity: 0 });
                     }
                 }
                 for kind in BAD_KINDS {
                     for k in 0..=answer.len() {
                         for late in [false, true] {
-                            v.push(Case { n, answer: answer.clone(), kind: kind.to_string(), cut: k, late, coalescing: co.to_string(), read_chunk: 0, keepalive_everywhere: false, prefill: 0, big: 0, wblock: -1 });
+                            v.push(Case { n, answer: answer.clone(), kind: kind.to_string(), cut: k, late, coalescing: co.to_string(), read_chunk: 0, keepalive_everywhere: false, prefill: 0, big: 0, wblock: -1, capacity: 0 });
                         }
                     }
                 }
@@ -522,7 +534,7 @@ fn cases(thorough: bool) -> Vec<Case> {
                     if !thorough && (read_chunk == 4096 || kind == "read-error") && big % 2 == 0 {
                         continue;
                     }
-                    v.push(Case { n: 2, answer, kind: kind.to_string(), cut, late: false, coalescing: "yield".into(), read_chunk, keepalive_everywhere: false, prefill: 0, big, wblock: -1 });
+                    v.push(Case { n: 2, answer, kind: kind.to_string(), cut, late: false, coalescing: "yield".into(), read_chunk, keepalive_everywhere: false, prefill: 0, big, wblock: -1, capacity: 0 });
                 }
             }
         }
@@ -544,11 +556,32 @@ fn cases(thorough: bool) -> Vec<Case> {
                         }
                         for (answer, cut) in answers {
                             for late in [false, true] {
-                                v.push(Case { n, answer: answer.clone(), kind: kind.to_string(), cut, late, coalescing: co.to_string(), read_chunk: 0, keepalive_everywhere: kind != "silence" && late, prefill: 0, big: 0, wblock: k as i64 });
+                                v.push(Case { n, answer: answer.clone(), kind: kind.to_string(), cut, late, coalescing: co.to_string(), read_chunk: 0, keepalive_everywhere: kind != "silence" && late, prefill: 0, big: 0, wblock: k as i64, capacity: 0 });
                             }
                         }
                     }
                 }
+            }
+        }
+    }
+    // the peer goes silent AND stops reading while the submit queue is FULL at the keep-alive tick: the writer is blocked,
+    // the queue holds `capacity` tasks, further callers (and the keep-aliver's own OPTIONS) wait for a slot
+    {
+        let f0 = 9 + caller_spec(0).request_body.len();
+        for co in ["yield", "off"] {
+            for k in [0usize, 5, f0] {
+                for n in [2usize, 3, 4] {
+                    for late in [false, true] {
+                        for kind in ["silence", "silence-after-keepalive"] {
+                            v.push(Case { n, answer: vec![], kind: kind.to_string(), cut: 0, late, coalescing: co.to_string(), read_chunk: 0, keepalive_everywhere: false, prefill: 0, big: 0, wblock: k as i64, capacity: 1 });
+                        }
+                    }
+                }
+            }
+            // the same with the channel exactly as Connection::new makes it: its real capacity (read back through the hook) + 8 callers
+            let real = real_submit_capacity();
+            for k in [0usize, f0] {
+                v.push(Case { n: real + 8, answer: vec![], kind: "silence".to_string(), cut: 0, late: true, coalescing: co.to_string(), read_chunk: 0, keepalive_everywhere: false, prefill: 0, big: 0, wblock: k as i64, capacity: 0 });
             }
         }
     }
@@ -566,7 +599,7 @@ fn cases(thorough: bool) -> Vec<Case> {
                 for cut in cuts {
                     for kind in ["silence", "silence-after-keepalive"] {
                         for late in [false, true] {
-                            v.push(Case { n, answer: answer.clone(), kind: kind.to_string(), cut, late, coalescing: "yield".into(), read_chunk: 0, keepalive_everywhere: false, prefill: 32768 - j, big: 0, wblock: -1 });
+                            v.push(Case { n, answer: answer.clone(), kind: kind.to_string(), cut, late, coalescing: "yield".into(), read_chunk: 0, keepalive_everywhere: false, prefill: 32768 - j, big: 0, wblock: -1, capacity: 0 });
                         }
                     }
                 }
@@ -610,7 +643,7 @@ fn main() {
     let thorough = r.tier().is_thorough();
     let forced_bound: Option<u32> = r.args.extra_value("--bound").and_then(|s| s.parse().ok());
     // quick: bound 2 for n<=2 and bound 1 for n=3; thorough: bound 3 throughout
-    let bound_for = |c: &Case| -> u32 { if c.kind == ORPHAN_OVERFLOW || c.prefill > 0 { return if thorough { 1 } else { 0 }; } if c.big > 0 { return 1; } if c.wblock >= 0 { return if thorough { 2 } else { 1 }; } forced_bound.unwrap_or(if thorough { 3 } else if c.n <= 2 { 2 } else { 1 }) };
+    let bound_for = |c: &Case| -> u32 { if c.kind == ORPHAN_OVERFLOW || c.prefill > 0 { return if thorough { 1 } else { 0 }; } if c.big > 0 { return 1; } if c.n > 8 { return 0; } if c.wblock >= 0 { return if thorough { 2 } else { 1 }; } forced_bound.unwrap_or(if thorough { 3 } else if c.n <= 2 { 2 } else { 1 }) };
     let bound = forced_bound.unwrap_or(if thorough { 3 } else { 1 });
     let audit_every: u64 = if thorough { 16 } else { 4 };
     let all = cases(thorough);
@@ -638,6 +671,9 @@ fn main() {
             }
             if case.wblock >= 0 {
                 r_ref.counters.add("executions_peer_stopped_reading(writes pending after k bytes)", 1);
+            }
+            if case.wblock >= 0 && (case.capacity == 1 || case.n > 8) {
+                r_ref.counters.add("executions_submit_queue_full_at_keepalive_tick(capacity 1 or capacity+8 callers)", 1);
             }
             if !run.cut_class.is_empty() {
                 r_ref.counters.add(&format!("executions_cut_{}", run.cut_class), 1);
@@ -672,7 +708,7 @@ fn main() {
             }
             if let Err(wt) = &verdict {
                 let (k, t) = split_key(wt);
-                r_ref.violation(&format!("{k}:{}", case.kind), &format!("{t} [case: n={} answered={:?} kind={} cut={} late={} coalescing={} read_chunk={}{}{}{}]", case.n, case.answer, case.kind, if case.cut == usize::MAX { "end".to_string() } else { case.cut.to_string() }, case.late, case.coalescing, case.read_chunk, if case.wblock >= 0 { format!(" peer-stops-reading-after={}B", case.wblock) } else { String::new() }, if case.prefill > 0 { format!(" prefilled-ids={}", case.prefill) } else { String::new() }, if case.big > 0 { format!(" big-body={}", case.big) } else { String::new() }), case.to_json(&choices));
+                r_ref.violation(&format!("{k}:{}", case.kind), &format!("{t} [case: n={} answered={:?} kind={} cut={} late={} coalescing={} read_chunk={}{}{}{}]", case.n, case.answer, case.kind, if case.cut == usize::MAX { "end".to_string() } else { case.cut.to_string() }, case.late, case.coalescing, case.read_chunk, if case.wblock >= 0 { format!(" peer-stops-reading-after={}B submit-capacity={}", case.wblock, if case.capacity == 0 { "default".to_string() } else { case.capacity.to_string() }) } else { String::new() }, if case.prefill > 0 { format!(" prefilled-ids={}", case.prefill) } else { String::new() }, if case.big > 0 { format!(" big-body={}", case.big) } else { String::new() }), case.to_json(&choices));
             }
             verdict.map(|_| ())
         });
@@ -708,7 +744,7 @@ fn main() {
     for c in all.iter().filter(|c| c.n == 3 && c.answer.len() == 2).take(2) {
         r.sample(c.to_json(&[]));
     }
-    r.set_rule(&format!("E-ASYNC fault enumeration on the real Connection::router: n=1..3 requests in flight x ordered subsets of answered requests ({}) x EVERY cut offset 0..=len of the response byte stream x {{eof, read-error, write-error(+a later request), silence with keep-alive {KEEPALIVE_INTERVAL_MS}/{KEEPALIVE_TIMEOUT_MS}ms and virtual time advanced past both, silence after one answered keep-alive}} and, after every whole number of frames, x {{garbage header, version 3, client-direction bit, unknown opcode, frame on a stream nobody waits on, second answer on an answered stream, negative stream, event frame}}; plus the driver's own give-up (1030 abandoned requests unanswered for over a second) per answered subset; plus response bodies of 32767/32768/32769/40000/65535/65536/65537/100000 bytes written back-to-back with the next response in one delivery (unlimited / 4096 / 50000-byte reads) before the fault; plus 'peer stops reading' (the stream accepts 0 / 5 / one frame / one frame + 5 request bytes, then writes stay pending; 1..2 callers with requests queued, unflushed or half-written; coalescing yield/off) x {{silence + keep-alive timeout, EOF, read error, garbage header, unsolicited stream}}; plus stream-id exhaustion x silent stall x keep-alive (router map pre-filled by 32768-j real allocate calls, j=0,1,2, 1..2 callers, every pre-filled handler must be failed too); x a late request after the fault; every case explored by E-DFS over task scheduling and fault timing (fault together with / after the bytes) up to deviation bound {bound} (n=3) / {} (n<=2). evaluations = executions; distinct_nontrivial = distinct cases in which at the fault some request was completely or partially answered while another (or the same) was still owed. replays for the determinism audit: 1 in {audit_every} executions, full observation trace compared.", "all 1+2+5+16 of them; write coalescing yield/off (thorough: +1ms, + keep-aliver armed during the other faults)", if thorough { bound } else { bound + 1 }));
+    r.set_rule(&format!("E-ASYNC fault enumeration on the real Connection::router: n=1..3 requests in flight x ordered subsets of answered requests ({}) x EVERY cut offset 0..=len of the response byte stream x {{eof, read-error, write-error(+a later request), silence with keep-alive {KEEPALIVE_INTERVAL_MS}/{KEEPALIVE_TIMEOUT_MS}ms and virtual time advanced past both, silence after one answered keep-alive}} and, after every whole number of frames, x {{garbage header, version 3, client-direction bit, unknown opcode, frame on a stream nobody waits on, second answer on an answered stream, negative stream, event frame}}; plus the driver's own give-up (1030 abandoned requests unanswered for over a second) per answered subset; plus response bodies of 32767/32768/32769/40000/65535/65536/65537/100000 bytes written back-to-back with the next response in one delivery (unlimited / 4096 / 50000-byte reads) before the fault; plus a FULL submit queue at the keep-alive tick (peer silent and not reading; submit-channel capacity 1 with 2..4 callers, and the real capacity read back through the hook + 8 callers); plus 'peer stops reading' (the stream accepts 0 / 5 / one frame / one frame + 5 request bytes, then writes stay pending; 1..2 callers with requests queued, unflushed or half-written; coalescing yield/off) x {{silence + keep-alive timeout, EOF, read error, garbage header, unsolicited stream}}; plus stream-id exhaustion x silent stall x keep-alive (router map pre-filled by 32768-j real allocate calls, j=0,1,2, 1..2 callers, every pre-filled handler must be failed too); x a late request after the fault; every case explored by E-DFS over task scheduling and fault timing (fault together with / after the bytes) up to deviation bound {bound} (n=3) / {} (n<=2). evaluations = executions; distinct_nontrivial = distinct cases in which at the fault some request was completely or partially answered while another (or the same) was still owed. replays for the determinism audit: 1 in {audit_every} executions, full observation trace compared.", "all 1+2+5+16 of them; write coalescing yield/off (thorough: +1ms, + keep-aliver armed during the other faults)", if thorough { bound } else { bound + 1 }));
     r.assume("write error alone is invisible to a router that has nothing to write: that kind always adds a later request, which must make the router notice");
     r.assume("select!-branch randomness inside the router is audited by trace-equal replays, not owned");
     r.finish();
